@@ -11,6 +11,7 @@ import (
 	"github.com/cloudflare/pat-go/tokens/batched"
 	"github.com/cloudflare/pat-go/tokens/type1"
 	"github.com/cloudflare/pat-go/tokens/type2"
+	"github.com/cloudflare/pat-go/tokens/type5"
 
 	"verifharness/internal/core"
 	"verifharness/internal/ref"
@@ -431,6 +432,34 @@ func runC05(c *core.Ctx) {
 		}
 	}
 	c.Exhaustive(fmt.Sprintf("all request-kind sequences of length 1..%d over 8 kinds under 8 issuer configurations", maxLen))
+	// the batch client given nothing, or a request of a type the generic batch does not carry: an error, or a batch the
+	// decoder refuses - never a panic, never a batch that decodes with that request in it
+	if c.Next() {
+		r := c.CaseRng()
+		k5 := VOPRFKey(oprf.SuiteRistretto255, r.Bytes(32))
+		i5 := type5.NewBatchedPrivateIssuer(k5)
+		s5, err := type5.NewBatchedPrivateClient().CreateTokenRequest(r.Bytes(8), [][]byte{r.Bytes(32)}, i5.TokenKeyID(), i5.TokenKey())
+		must(err)
+		good := w.mkReq(k1A, r, false)
+		for name, list := range map[string][]tokens.TokenRequestWithDetails{"empty": {}, "nil": nil, "type5-request": {s5.Request()}, "type1-then-type5": {good.req, s5.Request()}} {
+			c.Eval(1)
+			var br *batched.BatchedTokenRequest
+			var err error
+			pan, pv, _ := core.Guard(func() { br, err = batched.NewBasicClient().CreateTokenRequest(list) })
+			if pan {
+				c.Violation("batch:client-panic", "the batch client panicked on "+name+": "+pv, nil)
+				continue
+			}
+			if err == nil && br != nil && (name == "type5-request" || name == "type1-then-type5") {
+				dec := new(batched.BatchedTokenRequest)
+				if dec.Unmarshal(clone(br.Marshal())) {
+					c.Violation("batch:foreign-type-carried", "the batch client built, and the batch decoder accepted, a batch that carries a request of a type the generic batch does not carry", map[string]any{"case": name})
+					continue
+				}
+			}
+			c.Class("batch_client_argument_errors")
+		}
+	}
 	// every truncated key id no configured issuer carries (0x00 and 0xff included): such a request is absent, its
 	// neighbours are served
 	{
